@@ -302,8 +302,48 @@ D19_CASE = {
 }
 
 
+def constructor_matrix():
+    """Enumerated: chain of three classes; every level {no __init__, __init__ without super call, with super().__init__()
+    first / last}; the invariants sit on level 0, 1 or 2; every class is constructed (all invariants truthy, then the
+    invariant falsy) and its public method called."""
+    import itertools
+
+    opts = ["none", "absent", "first", "last"]
+    for inits in itertools.product(opts, repeat=3):
+        for inv_level in (0, 1, 2):
+            for root in ("DBC", "meta"):
+                classes = []
+                for lvl in range(3):
+                    mem = []
+                    if lvl == 0:
+                        mem.append(_m("m", "method"))
+                    if inits[lvl] != "none":
+                        fi = _m("__init__", "init", False, [], {"ret": "None"})
+                        fi["super"] = inits[lvl] if lvl > 0 else "absent"
+                        mem.append(fi)
+                    invs = []
+                    if lvl == inv_level:
+                        invs.append({"cid": 1, "on": "CALL", "lam": False, "selfarg": True, "err": {"form": "default"}})
+                    classes.append({"name": "K%d" % lvl, "bases": [lvl - 1] if lvl else [], "root": root,
+                                    "shape": "noinit" if inits[0] == "none" else "plain", "invs": invs, "members": mem})
+                prog = {"funcs": [], "classes": classes}
+                ops = []
+                for ci in range(3):
+                    for code in ("T", "F"):
+                        ops.append({"op": "new", "cls": ci, "k": ci, "args": {}, "truth": {1: [code]}})
+                    ops.append({"op": "call", "k": ci, "m": "m", "args": {"x": "a:x"}, "truth": {1: ["T"]}})
+                yield {"program": prog, "ops": ops, "codes": {}, "masks": [0], "fixed_truth": {}, "d19_shape": False,
+                       "matrix": [list(inits), inv_level, root]}
+
+
 def directed(ctx, only=None):
     D.run_one(ctx, dict(D19_CASE), judge, nontrivial=lambda *a: True)
+    if only is None:
+        n = 0
+        for case in constructor_matrix():
+            D.run_one(ctx, case, judge, nontrivial=lambda *a: True)
+            n += 1
+        ctx.count("constructor_matrix_programs", n)
 
 
 def replay(ctx, case):
